@@ -53,9 +53,11 @@ def matches(p, rx, s, acc):
 ATOMS = ["a", r"\.", r"\x41", ".", r"\d", r"\w", "[ab]", "[a-c]", r"[\w-]", "[^a]", "[^ab]", r"[^\d]",
          "[^a-c]", r"[a\d]", r"[^\w]",
          # negated classes mixing literal / range / category members in both orders
-         r"[^a\d]", r"[^\da]", r"[^a-c\d]", r"[^\d_a-c]", r"[^ \w]", r"[a-c\d_]"]
+         r"[^a\d]", r"[^\da]", r"[^a-c\d]", r"[^\d_a-c]", r"[^ \w]", r"[a-c\d_]",
+         # negated ranges that reach or pass the last letter of the generator's alphabet ('~')
+         r"[^a-~]", r"[^!-\xff]", r"[^#-\u04ff]"]
 QUANTS = ["", "?", "*", "+", "{2}", "{1,2}", "{2,}", "{33,}", "{0,44}", "*?", "+?", "??", "{1,2}?",
-          "{0}", "{3,}?"]
+          "{0}", "{3,}?", "{33,}?", "{33,35}?"]
 UNSUPPORTED = [r"(?=a)", r"(?!b)", r"(?<=a)", r"(?<!b)", r"\s", r"\S", r"\D", r"\W", r"[\s]", r"[^\D]",
                r"(?>a)", r"a*+", r"a++", r"(a)\1", r"(?P<n>a)(?P=n)", r"(a)?(?(1)b|c)", r"a?+", r"[\S]"]
 SKELETONS = ["%s", "a%s", "%sa", "(%s|a)", "(?:a%s)+", "a|%s", "(a%s)?b", "^%s$", "[ab]%s{2}"]
